@@ -22,7 +22,7 @@ def check(ctx):
 
     o = ctx.ob('ledger_stores_and_returns_units', 'R13',
                "reserve() appends exactly one row (resource, midnight(day), task, units) and returns exactly the units stored; "
-               "queries compare the stored day key", floor=3)
+               "queries compare the stored day key", floor=2)
     ctx.guarded(o, lambda o: ledger_shape(ctx, o))
 
     for S in BOTH:
@@ -79,7 +79,7 @@ def remaining(ctx, o, ps: PassShape):
             continue
         if not (isinstance(c.args[3], ast.Name) and c.args[3].id == ps.task):
             o.refute(ps.f, c, c, "work is booked for another task than the one being scheduled")
-        w = ps.ex.expand(c.args[4], ps.cfg.node_containing(c))
+        w = ps.ex.expand(c.args[4], ps.cfg.node_containing(c), stop={f"{ps.task}.estimate", f"{ps.task}.spent"})
         m = match(f"max({ps.task}.estimate - {ps.task}.spent, 0)", w) or match(f"max(0, {ps.task}.estimate - {ps.task}.spent)", w)
         if m:
             o.site(ps.f, c, f"remaining = {src(w)}")
